@@ -506,21 +506,30 @@ func noPathAvoidingSuccess(fn *ssa.Function, fi *FactInfo, avoid func(ssa.Instru
 
 func ruleC15ScanFilter(c *Ctx) {
 	p := c.P
-	for _, w := range []struct{ typ, m string }{{"uniqueIndexScanner", "Next"}, {"uniqueIndexScanner", "nextUnpaged"}, {"sortingScanner", "ScanCursor"}} {
-		fn := p.SSAFunc(p.Method("boltz", w.typ, w.m))
-		name := FnName(fn)
-		c.Analysed(name)
-		fi := ComputeFacts(fn)
+	// every function of the scanners that evaluates the query filter per row (found by what it does:
+	// it calls EvalBool on the scanner's filter and reads rows from a cursor)
+	for _, fn := range c.prodFuncs("boltz") {
+		if fn.Parent() != nil {
+			continue
+		}
 		var eval, start ssa.Instruction
 		for _, call := range callsIn(fn) {
-			if invokeNamed(call, "EvalBool") {
-				eval = call
+			if invokeNamed(call, "EvalBool") && call.Common().IsInvoke() && fn.Signature.Recv() != nil {
+				if nm := namedOf(fn.Signature.Recv().Type()); nm != nil && strings.HasSuffix(strings.ToLower(nm.Obj().Name()), "scanner") {
+					eval = call
+				}
 			}
 			if invokeNamed(call, "Current") && call.Common().IsInvoke() {
 				start = call
 			}
 		}
-		if eval == nil || start == nil {
+		if eval == nil {
+			continue
+		}
+		name := FnName(fn)
+		c.Analysed(name)
+		fi := ComputeFacts(fn)
+		if start == nil {
 			c.Undecided("C15.SCANFILTER", name, p.Pos(fn.Pos()), "cannot find the per-row filter evaluation")
 			continue
 		}
